@@ -1,4 +1,4 @@
 CONSTANTS MaxDepth = 3
 INIT Init
 NEXT Next
-INVARIANTS Out CaptureExact Balanced MainOnlyFromDepth0 OrderPreserved
+INVARIANTS Out CaptureExact FailureLeavesCaptureOut Balanced MainOnlyFromDepth0 OrderPreserved
